@@ -24,6 +24,11 @@ use crate::spec::{self, fe};
 pub struct Cfg {
     pub num_queues: u8,
     pub masks: Vec<u64>,
+    /// 0: protocol features negotiated, all rings started, then enabled.  1: legacy front end (no protocol features):
+    /// the upper half of the rings is started, then SET_FEATURES enables everything, then the lower half is started.
+    /// 2: protocol features, odd rings enabled before they are started.
+    #[serde(default)]
+    pub mode: u8,
 }
 
 #[derive(Serialize, Deserialize, Debug, Clone, Hash, PartialEq, Eq)]
@@ -65,11 +70,65 @@ fn setup(cfg: &Cfg) -> Result<(Fx<VRw>, RawClient, Vec<EventFd>), String> {
     Ok((fx, cl, kicks))
 }
 
+/// other orders in which the rings get started and enabled (the routing must not depend on them)
+fn setup_other_order(cfg: &Cfg) -> Result<(Fx<VRw>, RawClient, Vec<EventFd>), String> {
+    let n = cfg.num_queues as usize;
+    let be = BeCfg { num_queues: n, max_queue_size: 256, queues_per_thread: cfg.masks.clone(), barrier_id: Some(BARRIER_ID), ..Default::default() };
+    let mut fx: Fx<VRw> = Fx::new(be)?;
+    fx.connect()?;
+    let cl = RawClient::new(fx.peer.as_ref().unwrap().try_clone().unwrap());
+    let kicks: Vec<EventFd> = (0..n).map(|_| new_eventfd()).collect();
+    let io = |e: crate::rawclient::RcErr| format!("setup: {e}");
+    if cfg.mode == 1 {
+        let (b, _) = cl.get(fe::GET_FEATURES, &[], &[]).map_err(io)?;
+        let feats = spec::rd_u64(&b, 0);
+        for q in 0..n {
+            cl.send(fe::SET_VRING_NUM, false, &spec::b_vring_state(q as u32, 1 << (q + 1)), &[]).map_err(io)?;
+        }
+        for q in (n / 2..n).rev() {
+            cl.send(fe::SET_VRING_KICK, false, &spec::b_u64(q as u64), &[kicks[q].as_raw_fd()]).map_err(io)?;
+        }
+        cl.send(fe::SET_FEATURES, false, &spec::b_u64(feats & (1 << 32)), &[]).map_err(io)?;
+        for q in 0..n / 2 {
+            cl.send(fe::SET_VRING_KICK, false, &spec::b_u64(q as u64), &[kicks[q].as_raw_fd()]).map_err(io)?;
+        }
+        // synchronise: a reply-bearing request is answered after everything before it was processed
+        cl.get(fe::GET_FEATURES, &[], &[]).map_err(io)?;
+    } else {
+        cl.negotiate(|f| f & ((1 << 32) | spec::VIRTIO_F_PROTOCOL_FEATURES), |p| p).map_err(|e| format!("negotiation: {e}"))?;
+        for q in 0..n {
+            if cl.ack(fe::SET_VRING_NUM, &spec::b_vring_state(q as u32, 1 << (q + 1)), &[]).map_err(io)? != 0 {
+                return Err(format!("SET_VRING_NUM({q}) refused"));
+            }
+        }
+        for q in (0..n).rev() {
+            let steps: [u32; 2] = if q % 2 == 1 { [fe::SET_VRING_ENABLE, fe::SET_VRING_KICK] } else { [fe::SET_VRING_KICK, fe::SET_VRING_ENABLE] };
+            for code in steps {
+                let a = if code == fe::SET_VRING_KICK {
+                    cl.ack(code, &spec::b_u64(q as u64), &[kicks[q].as_raw_fd()])
+                } else {
+                    cl.ack(code, &spec::b_vring_state(q as u32, 1), &[])
+                };
+                if a.map_err(io)? != 0 {
+                    return Err(format!("setup message {code} for ring {q} refused"));
+                }
+            }
+        }
+    }
+    Ok((fx, cl, kicks))
+}
+
 pub fn run_cfg(ctx: &mut Ctx, cfg: &Cfg) -> Result<(), String> {
     let n = cfg.num_queues as usize;
     let base_threads = thread_count();
-    let (mut fx, cl, kicks) = setup(cfg)?;
+    let (mut fx, cl, kicks) = if cfg.mode == 0 { setup(cfg)? } else { setup_other_order(cfg)? };
+    if cfg.mode != 0 {
+        ctx.class(if cfg.mode == 1 { "order_legacy_features_between_starts" } else { "order_enable_before_start" });
+    }
     for q in 0..n {
+        if cfg.mode != 0 {
+            break;
+        }
         let a = cl.ack(fe::SET_VRING_ENABLE, &spec::b_vring_state(q as u32, 1), &[]).map_err(|e| format!("enable {q}: {e}"))?;
         if a != 0 {
             return Err(format!("SET_VRING_ENABLE({q},1) refused"));
@@ -149,7 +208,7 @@ pub fn run_cfg(ctx: &mut Ctx, cfg: &Cfg) -> Result<(), String> {
 
 pub fn run_listener(ctx: &mut Ctx, c: &ListenerCase) -> Result<(), String> {
     let n = c.num_queues as usize;
-    let cfg = Cfg { num_queues: c.num_queues, masks: c.masks.clone() };
+    let cfg = Cfg { num_queues: c.num_queues, masks: c.masks.clone(), mode: 0 };
     let (mut fx, cl, kicks) = setup(&cfg)?;
     // every ring started, disabled, with one kick pending: a mis-delivered listener event would eat it
     for k in &kicks {
@@ -216,7 +275,7 @@ fn all_cfgs(n: u8, t: usize) -> Vec<Cfg> {
     let mut out = Vec::new();
     let mut cur = vec![0u64; t];
     loop {
-        out.push(Cfg { num_queues: n, masks: cur.clone() });
+        out.push(Cfg { num_queues: n, masks: cur.clone(), mode: 0 });
         let mut i = 0;
         loop {
             if i == t {
@@ -234,7 +293,7 @@ fn all_cfgs(n: u8, t: usize) -> Vec<Cfg> {
 
 pub fn run(ctx: &mut Ctx) {
     ctx.rule = "queues-per-thread configurations (num_queues 1..=6, 1..=3 masks, each any value below 2^(num_queues+2)); each configuration \
-                builds a fresh daemon, configures ring q with size 2^(q+1), enables all rings and kicks every queue once with a double barrier \
+                builds a fresh daemon, configures ring q with size 2^(q+1), enables all rings (sampled part: also a legacy front end whose SET_FEATURES arrives between the ring starts, and rings enabled before they are started) and kicks every queue once with a double barrier \
                 on every worker in between. Exhaustive over the stated sub-space, sampled (proptest) beyond. Custom listeners: ids num_queues+1, \
                 255, 256, 65535, 65536+k, 2^32+k, random u64 and reserved ids. Non-trivial = a configuration where some kicked queue has \
                 rank != 0 and rank != q (or a multi-queue mask with shifted ranks); distinct configurations."
@@ -259,8 +318,8 @@ pub fn run(ctx: &mut Ctx) {
     let cases = ctx.tier.pick(1500u32, 60_000u32);
     let strat = (1u8..=6, 1usize..=3).prop_flat_map(|(n, t)| {
         let lim = 1u64 << (n + 2);
-        (Just(n), proptest::collection::vec(0..lim, t..=t))
-    }).prop_map(|(n, masks)| Cfg { num_queues: n, masks });
+        (Just(n), proptest::collection::vec(0..lim, t..=t), prop_oneof![2 => Just(0u8), 1 => Just(1u8), 1 => Just(2u8)])
+    }).prop_map(|(n, masks, mode)| Cfg { num_queues: n, masks, mode });
     ctx.prop_check("sampled_configs", cases, strat, |ctx, c| run_cfg(ctx, c));
 
     // listeners
